@@ -220,4 +220,6 @@ func runC08(c *mon.Ctx) {
 		}
 		cs.Sample(map[string]any{"outcome": map[bool]string{true: "accepted with exact data", false: msg}[key == ""], "value_classes": strings.Join(g.Classes, ",")})
 	}
+	// a conforming IdP also rolls its key over: both certificates are configured ahead of time
+	runStoreRollover(c, c.N(150, 5000), BaseTime(c.Seed), []string{"sso-resp", "sso-assert"})
 }
